@@ -179,6 +179,16 @@ def analyse(p, wall, cmd, text, stem):
                 ln2 = b["locs"][1][1]
                 if 1 <= ln2 <= len(lines):
                     sec = lines[ln2 - 1].strip()
+            # every generated-file line shown in the diagnostic snippet (secondary spans such as the failed
+            # invariant / precondition are printed in the same snippet, without their own `-->`)
+            shown = []
+            for sl in b["text"].split("\n"):
+                mm = re.match(r"^\s*(\d+)\s*\|", sl)
+                if mm:
+                    k = int(mm.group(1))
+                    if 1 <= k <= len(lines):
+                        shown.append(lines[k - 1])
+            sec = (sec + " " + " ".join(shown)).strip()
             res.errors.append({"fn": fn, "msg": low, "clause": clause, "clause2": sec,
                                "line": b["locs"][0][1] if b["locs"] else 0, "text": b["text"]})
             continue
